@@ -83,7 +83,7 @@ def gen_models(seed, quick):
         names = ["x", "y", "z"][:nv]
         dom_choices = [DOMS[:nv], [DOMS[3]] * nv, [DOMS[2], DOMS[1], DOMS[4]][:nv]]
         if not quick:
-            dom_choices += [[rng.choice(DOMS) for _ in range(nv)] for _ in range(3)]
+            dom_choices += [[rng.choice(DOMS) for _ in range(nv)] for _ in range(12)]
         for doms in dom_choices:
             vars_ = [[n, d[0], d[1]] for n, d in zip(names, doms)]
             for c in rel_templates(names):
@@ -99,7 +99,7 @@ def gen_models(seed, quick):
     models.append({"vars": [["x", 0, 9], ["y", 0, 9]], "constraints": [["all_different", ["x", "y"]], ["rel", "==", ["add", V("x"), V("y")], K(10)]], "family": "docstring"})
     pool2 = rel_templates(["x", "y"], consts=(0, 1, 2))
     pool3 = rel_templates(["x", "y", "z"], consts=(1, 3))
-    for _ in range(250 if quick else 4000):
+    for _ in range(250 if quick else 60000):
         nv = rng.choice([2, 3])
         names = ["x", "y", "z"][:nv]
         vars_ = [[n, *rng.choice(DOMS)] for n in names]
@@ -116,7 +116,7 @@ def gen_models(seed, quick):
     # (d) circuits with arbitrary successor domains, sums with 1..5 terms, cumulative with many active literals
     for n in (2, 3, 4, 5):
         names = [f"s{i}" for i in range(n)]
-        for _ in range(3 if quick else 25):
+        for _ in range(3 if quick else 120):
             vars_ = []
             for nm in names:
                 lb = rng.choice([0, 0, 0, 1])
@@ -126,7 +126,7 @@ def gen_models(seed, quick):
         models.append({"vars": [[nm, 0, n - 1] for nm in names], "constraints": [["circuit", names]], "family": "circuit"})
     for n in (1, 2, 3, 4, 5):
         names = [f"t{i}" for i in range(n)]
-        for _ in range(4 if quick else 30):
+        for _ in range(4 if quick else 200):
             vars_ = [[nm, *rng.choice([(0, 2), (1, 3), (-1, 1), (0, 1)])] for nm in names]
             for kind in ("sum_eq", "sum_le", "sum_ge"):
                 models.append({"vars": vars_, "constraints": [[kind, names, rng.randint(-1, 2 * n)]], "family": "sum"})
@@ -142,7 +142,7 @@ def gen_models(seed, quick):
         for hi, durs in ((2, [2, 2, 2, 2]), (1, [2, 1, 2, 1]), (2, [1, 3, 2, 2])):
             models.append({"vars": [[nm, 0, hi] for nm in names], "constraints": [["cumulative", names, durs, dem, cap]],
                            "family": "cumulative-mixed-demands"})
-    for _ in range(10 if quick else 120):
+    for _ in range(10 if quick else 1500):
         n = rng.choice([3, 4, 5])
         names = [f"r{i}" for i in range(n)]
         dem = [rng.randint(1, 4) for _ in range(n)]
